@@ -217,8 +217,8 @@ pub fn run(report: &mut Report) {
     let tier = report.tier;
     // Exhaustive: alphabet {0,1,2} up to arity 7 (quick) / 9 (thorough);
     // alphabet of 4 up to arity 5 / 7.
-    let max3 = tier.pick_usize(7, 9);
-    let max4 = tier.pick_usize(5, 7);
+    let max3 = tier.pick_usize(9, 11);
+    let max4 = tier.pick_usize(7, 9);
     let lists = (1..=max3)
         .step_by(2)
         .flat_map(|len| all_lists(len, 3))
@@ -228,13 +228,13 @@ pub fn run(report: &mut Report) {
     });
     report.prop(
         "flat_random_u8",
-        tier.pick(20_000, 1_000_000),
+        tier.pick(300_000, 3_000_000),
         || odd_list(15, 6),
         |terms: &Vec<u8>| check_flat(terms, |k| 100 + k as u8),
     );
     report.prop(
         "flat_random_string",
-        tier.pick(4_000, 300_000),
+        tier.pick(60_000, 600_000),
         || odd_list(11, 4),
         |terms: &Vec<u8>| {
             let strs: Vec<String> = terms.iter().map(|t| format!("v{t}")).collect();
@@ -243,7 +243,7 @@ pub fn run(report: &mut Report) {
     );
     report.prop(
         "flat_random_option",
-        tier.pick(4_000, 300_000),
+        tier.pick(60_000, 600_000),
         || odd_list(11, 4),
         |terms: &Vec<u8>| {
             let opts: Vec<Option<u8>> = terms
@@ -255,7 +255,7 @@ pub fn run(report: &mut Report) {
     );
     report.prop(
         "nested",
-        tier.pick(20_000, 700_000),
+        tier.pick(200_000, 2_000_000),
         || (2u8..=5).prop_flat_map(nested_strategy),
         check_nested,
     );
